@@ -5,7 +5,7 @@ import (
 
 	"gonum.org/v1/gonum/lapack"
 
-	"verif/harness/internal/core"
+	"gonum.org/v1/gonum/verifharness/internal/core"
 )
 
 func init() { families["larft"] = larftFamily }
